@@ -350,6 +350,10 @@ def assemble(unit_cfg, src="/repo/src"):
                 what = tag[1]
                 if what == "ATTR":
                     fn_starts[fi["idx"]] = out.line
+                    if fc is None and fi["key"] in unit_cfg.get("assume", {}):
+                        out.add("#[verifier::external_body]\n")
+                        side["assumed"].append(fi["key"])
+                        side.setdefault("assumed_why", {})[fi["key"]] = unit_cfg["assume"][fi["key"]]
                     if fc is not None:
                         for a in fc.attrs:
                             out.add("#[%s]\n" % a)
